@@ -198,6 +198,24 @@ def compare(chk, tag, make_src, w, llgo, d, stats, unit_desc, attempts=4):
                     return fails, src
             p124 = parse(b.res["go124"].err)
             p126 = parse(b.res["go126"].err)
+            r124 = b.res["go124"]
+            # go1.24.0's range-over-func/recover bug can kill the reference process itself (nil dereference while it
+            # prints the panic): the units after that point would all be lost as disagreements.  Re-run go1.24.0 without
+            # the unit it died in (that unit stays a disagreement), at most 3 times.
+            skip124 = []
+            while p124[2] is not None and (p126[2] is None or p124[2][0] != p126[2][0]) and len(skip124) < 3:
+                skip124.append(p124[2][0])
+                b2 = build_run(w, llgo, os.path.join(d, "g%d" % len(skip124)), make_src(tuple(skip124)), which=("go124",))
+                if b2.res.get("go124") is None or b2.res["go124"].kind == "timeout":
+                    break
+                q = parse(b2.res["go124"].err)
+                merged = dict(q[0])
+                merged.update(p124[0])
+                for u in skip124:
+                    merged.pop(u, None)
+                p124 = (merged, q[1], q[2], q[3], q[4])
+                r124 = b2.res["go124"]
+                stats["go124_reruns"] += 1
             refs = {}
             for u in p126[1]:
                 if p124[0].get(u) == p126[0][u]:
@@ -216,7 +234,7 @@ def compare(chk, tag, make_src, w, llgo, d, stats, unit_desc, attempts=4):
             if p126[2] is not None:
                 u6, l6 = uncaught(p126[2])
                 if p124[2] is not None and uncaught(p124[2]) == (u6, l6) and l6 is not None and \
-                        (b.res["go124"].kind, b.res["go124"].rc) == (b.res["go126"].kind, b.res["go126"].rc):
+                        (r124.kind, r124.rc) == (b.res["go126"].kind, b.res["go126"].rc):
                     ref_unc = (u6, l6, b.res["go126"].kind, b.res["go126"].rc)
                 else:
                     stats["reference_disagreement"] += 1
@@ -276,6 +294,11 @@ def compare(chk, tag, make_src, w, llgo, d, stats, unit_desc, attempts=4):
     return fails, src
 
 
+def new_stats():
+    return {"evaluations": 0, "lines": 0, "reference_disagreement": 0, "invalid_generated": 0, "uncaught_compared": 0,
+            "crash_in_discarded_unit": 0, "go124_reruns": 0, "_seen": {}}
+
+
 def violate(chk, name, files, summary):
     chk.violation(name, files, summary)
     try:
@@ -291,8 +314,7 @@ def main():
     workers = int(os.environ.get("VERIF_C04_WORKERS", "4" if chk.tier == "quick" else "8"))
     nprog = int(os.environ.get("VERIF_C04_PROGS", "30" if chk.tier == "quick" else "800"))
     nfuncs = 20
-    stats = {"evaluations": 0, "lines": 0, "reference_disagreement": 0, "invalid_generated": 0, "uncaught_compared": 0,
-             "crash_in_discarded_unit": 0, "_seen": {}}
+    stats = new_stats()
     outcome = {}
 
     # ------------------------------------------------------------------ fixed probes first
@@ -350,8 +372,7 @@ def main():
     def job(idx):
         d = os.path.join(w.dir, "p%d" % idx)
         _, units, meta = gen.generate(chk.seed, idx, avoid, nfuncs)
-        st = {"evaluations": 0, "lines": 0, "reference_disagreement": 0, "invalid_generated": 0, "uncaught_compared": 0,
-              "crash_in_discarded_unit": 0, "_seen": {}}
+        st = new_stats()
         umap = {u: (mode, fid, x) for (u, mode, fid, x) in units}
         sigs = []
 
@@ -371,7 +392,7 @@ def main():
     results = core.pmap(job, list(range(nprog)), workers=workers)
     deferred_calls = 0
     for idx, fails, st, sigs, meta, umap in results:
-        for k in ("evaluations", "lines", "reference_disagreement", "invalid_generated", "uncaught_compared", "crash_in_discarded_unit"):
+        for k in ("evaluations", "lines", "reference_disagreement", "invalid_generated", "uncaught_compared", "crash_in_discarded_unit", "go124_reruns"):
             stats[k] += st[k]
         if st.get("invalid_log"):
             stats["invalid_log"] = st["invalid_log"]
@@ -428,6 +449,7 @@ def main():
     chk.cov["deferred_calls_observed_approx"] = deferred_calls
     chk.cov["reference_disagreement"] = stats["reference_disagreement"]
     chk.cov["invalid_generated"] = stats["invalid_generated"]
+    chk.cov["go124_reference_reruns_after_its_own_crash"] = stats["go124_reruns"]
     chk.cov["uncaught_panic_terminations_compared"] = stats["uncaught_compared"]
     chk.cov["unit_outcomes"] = outcome
     chk.cov["construct_counts"] = dict(sorted(feats.items()))
